@@ -3,6 +3,7 @@ import math, struct
 from .core import dhex, hexd
 from .runner import Case
 from .props_eig import QUADS, flags_then_small
+from .props_est import small_hex_check
 from .props_mixed import f32
 
 GROUP = dict(name='sim', sources=['h_sim.cpp'],
@@ -57,6 +58,14 @@ def gen_C01(g, tier):
     for s in mids[:12 if tier == 'quick' else 200]:
         for b in ('lin', 'cir', 'ell %s %s' % (dhex(g.r.uniform(-1.5, 1.5)), dhex(g.r.uniform(-0.7, 0.7))), 'ell %s %s' % (dhex(0.3), dhex(-0.2))):
             cs.append(Case('o.c01.basis %s %s' % (b, hexes(s)), 'orc', 'basis-' + b.split()[0], check=flags_then_small(1, 1e-12)))
+    # histories on one mode object: the same or another vector requested again after the basis changed
+    for _ in range(6 if tier == 'quick' else 100):
+        k = g.randint(2, 4); steps = []
+        s0 = g.choice(mids)
+        for _ in range(k):
+            b = g.choice(['lin', 'cir', 'ell %s %s' % (dhex(g.r.uniform(-1.5, 1.5)), dhex(g.r.uniform(-0.7, 0.7)))])
+            steps.append('%s %s' % (b, hexes(s0 if g.random() < 0.6 else g.choice(mids))))
+        cs.append(Case('o.c01.basis seq %d %s' % (k, ' '.join(steps)), 'orc', 'basis-history', check=flags_then_small(1, 1e-12)))
     return cs
 
 
@@ -189,6 +198,10 @@ def gen_C07(g, tier):
         mu = g.choice([1.0, 2.0, 0.5, 3.0, g.r.uniform(0.2, 4)]); d = g.r.uniform(0.1, 0.9) * mu
         pts = g.choice([[(mu - d, 0.5), (mu + d, 0.5)], [(mu - d, 0.25), (mu, 0.5), (mu + d, 0.25)], [(mu, 1.0)]])
         cs.append(Case('o.c07.modcov %s %d %s' % (hexes(S), len(pts), ' '.join(hexes(x) for x in pts)), 'orc', 'modulated-covariance-any-mean', check=flags_then_small(1, 1e-12)))
+    # re-configuration of a live rectangular model for another sample size
+    for w in (2, 3, 4, 6):
+        for n1, n2 in ((6, 2), (6, 4), (9, 3), (3, 9), (2, 6), (5, 5), (4, 1), (1, 4)):
+            cs.append(Case('o.c07.retable %d %d %d' % (w, n1, n2), 'orc', 'rectangular-reconfigured', check=small_hex_check(1e-15)))
     return cs
 
 
@@ -271,6 +284,9 @@ def gen_C08(g, tier):
         devs = [f32(g.r.gauss(0, 1)) for _ in range(2 * g.randint(1, 4))]
         cs.append(Case('o.c08.rebuild %s %s %s' % (dhex(rho), hexes(b), hexes(devs)), 'orc', 'indices-changed-after-draws', check=first_zero))
     cs.append(Case('o.c08.rebuild %s %s %s' % (dhex(0.9), hexes([1.0, 1.0, 0.1, 10.0]), hexes([0.5, -0.5])), 'orc', 'indices-changed-after-draws', check=first_zero))
+    # rejection is persistent: every request on an inadmissible configuration is rejected
+    for rho, b0, b1 in ((0.9, 0.2, 2.0), (-0.9, 0.5, 0.3), (0.99, 0.3, 1.0), (-0.7, 1.0, 2.0), (0.95, 0.1, 10.0), (0.5, 1.0, 1.0), (0.0, 0.5, 2.0)):
+        cs.append(Case('o.c08.reject %s %s %s' % (dhex(rho), dhex(b0), dhex(b1)), 'orc', 'rejection-persistent', check=first_zero))
     return cs
 
 
